@@ -41,7 +41,8 @@ Definition kind_code (k : kind) : Z :=
   | KFactory => 6 | KMethod => 7 | KTuple => 8 | KUnion => 9 | KEvent => 10 | KMethodInt => 11
   end.
 Definition enc_tdef (t : tdef) : list Z :=
-  kind_code (t_kind t) :: t_scalar t :: t_doid t :: t_nnotif t :: (if t_static t then 1 else 0) :: enc_list (t_content t).
+  kind_code (t_kind t) :: t_scalar t :: t_doid t :: t_nnotif t :: (if t_static t then 1 else 0) :: t_cmp t :: t_label t
+  :: enc_list (t_content t).
 Definition enc_log (e : logent) : list Z :=
   let '(h, n, o, nw) := e in h :: n :: enc_list o ++ enc_list nw.
 Definition enc_inst (i : inst) : list Z :=
@@ -87,7 +88,7 @@ Definition world_oids (w : world) : list Z :=
   flat_map (fun c => map (fun p => t_doid (snd p)) c) (w_classes w) ++ flat_map inst_oids (w_insts w).
 
 (* the tracked world after an observed step *)
-Definition track (w : world) (o : op) (ob : obs) : world :=
+Definition track0 (w : world) (o : op) (ob : obs) : world :=
   match o with
   | NewInst _ => mkW (w_classes w) (w_insts w ++ [o_target ob]) (o_next ob)
   | _ => mkW (w_classes w) (update_nth (Z.to_nat (target w o)) (fun _ => o_target ob) (w_insts w)) (o_next ob)
@@ -136,7 +137,7 @@ Definition addressed (w : world) (o : op) : bool :=
   | _ => (0 <=? target w o) && (target w o <? zlen (w_insts w))
   end.
 
-Definition law_step (w : world) (o : op) (ob : obs) : list Z :=
+Definition law_core (w : world) (o : op) (ob : obs) : list Z :=
   if negb (addressed w o) then [] else
   let i := target w o in
   let before := nth (Z.to_nat i) (w_insts w) (new_inst 0) in
@@ -166,12 +167,17 @@ Definition law_step (w : world) (o : op) (ob : obs) : list Z :=
   (* 6: every other instance is exactly as it was *)
   ++ chk 6 (others_ok i 0 (w_insts w) (o_digests ob)
             && (zlen (o_digests ob) =? zlen (w_insts w) + (match o with NewInst _ => 1 | _ => 0 end)))
-  (* 7: the class tables are exactly as declared *)
+  (* 7: the class tables are exactly as declared (plus the rows of wildcard names resolved so far) *)
   ++ chk 7 (o_classes ob =? digest (enc_classes (w_classes w)))
   (* 8: a new instance starts empty *)
   ++ chk 8 (match o with NewInst c => inst_eqb after (new_inst c) | _ => true end)
   (* 10: harness sanity *)
   ++ chk 10 (opt_eqb Z.eqb (nth_error (o_digests ob) (Z.to_nat i)) (Some (digest (enc_inst after)))).
+
+(* The law is evaluated in the world as it is after the on-demand resolution of a wildcard name, which is the one
+   sanctioned change of a class table ([Model.resolved] does not mention the step function). *)
+Definition law_step (w : world) (o : op) (ob : obs) : list Z := law_core (resolved w o) o ob.
+Definition track (w : world) (o : op) (ob : obs) : world := track0 (resolved w o) o ob.
 
 Fixpoint law_hist (k : Z) (w : world) (h : list (op * obs)) : list Z :=
   match h with
